@@ -222,7 +222,7 @@ impl FloatEncoding for f32 {
             } else {
                 Inexact(f32::NEG_INFINITY, Sign::Negative)
             };
-        } else if top_bit < -125 - 23 {
+        } else if top_bit < -126 - 23 {
             // underflow
             return if sign == 0 {
                 Inexact(0f32, Sign::Negative)
